@@ -40,7 +40,7 @@ def gen_cases(l, f, rnd, quick):
             for op in ('add', 'sub', 'mul', 'lt', 'ifelse', 'max'):
                 if rnd.random() < (0.3 if quick else 1):
                     cases.append(dict(BLANK, op='s:' + op, a=a, b=b, n=rnd.randint(0, 1), l=l, f=f))
-        for op in ('neg', 'mulint', 'mulfloat', 'construct', 'trunc0', 'abs'):
+        for op in ('neg', 'mulint', 'mulfloat', 'construct', 'trunc0', 'abs', 'mod2', 'modfrac', 'divint', 'divfrac', 'pow2', 'sgn', 'floordiv'):
             cases.append(dict(BLANK, op='s:' + op, a=a, l=l, f=f))
     return cases
 
@@ -81,6 +81,20 @@ async def evaluate(mpc, e, idx, arg):
             r = mk(e['a'])
         elif op == 'trunc0':
             r = a + 0
+        elif op == 'mod2':
+            r = a % 2
+        elif op == 'modfrac':
+            r = a % 2.5
+        elif op == 'divint':
+            r = a / 4
+        elif op == 'divfrac':
+            r = a / 0.5
+        elif op == 'pow2':
+            r = a ** 2
+        elif op == 'sgn':
+            r = mpc.sgn(a)
+        elif op == 'floordiv':
+            r = a // 2
         rs = [r]
     else:
         xs = [inp(v, k) for k, v in enumerate(e['xs'])]
